@@ -136,17 +136,28 @@ func LoadContracts(repo, mirror string) (*Contracts, error) {
 			pkgPath += "/" + suf
 		}
 		var files []string
-		src := "repo"
-		if repo != "" {
-			files, _ = filepath.Glob(filepath.Join(repo, dir, "contracts*_verif.go"))
+		byBase := map[string]string{}
+		srcOf := map[string]string{}
+		if mirror != "" {
+			ms, _ := filepath.Glob(filepath.Join(mirror, dir, "contracts*_verif.go"))
+			for _, f := range ms {
+				byBase[filepath.Base(f)] = f
+				srcOf[f] = "mirror"
+			}
 		}
-		if len(files) == 0 && mirror != "" {
-			files, _ = filepath.Glob(filepath.Join(mirror, dir, "contracts*_verif.go"))
-			src = "mirror"
+		if repo != "" {
+			rs, _ := filepath.Glob(filepath.Join(repo, dir, "contracts*_verif.go"))
+			for _, f := range rs {
+				byBase[filepath.Base(f)] = f // the repository's copy wins
+				srcOf[f] = "repo"
+			}
+		}
+		for _, f := range byBase {
+			files = append(files, f)
 		}
 		sort.Strings(files)
 		for _, f := range files {
-			c.Sources[f] = src
+			c.Sources[f] = srcOf[f]
 			if err := c.parseFile(f, pkgPath); err != nil {
 				return nil, err
 			}
@@ -378,7 +389,17 @@ func (c *Contracts) parseFile(path, pkgPath string) error {
 			if r.kw == "after" {
 				when = "after"
 			}
-			txt = strings.TrimSpace(strings.TrimPrefix(strings.TrimSpace(txt), "call"))
+			txt = strings.TrimSpace(txt)
+			if strings.HasPrefix(txt, "after ") {
+				when = "after"
+				txt = strings.TrimSpace(strings.TrimPrefix(txt, "after"))
+			} else if strings.HasPrefix(txt, "before ") {
+				txt = strings.TrimSpace(strings.TrimPrefix(txt, "before"))
+			}
+			if !strings.HasPrefix(txt, "call ") {
+				return fmt.Errorf("%s:%d: malformed site clause (need '[after] call <pattern>: expr')", path, r.line)
+			}
+			txt = strings.TrimSpace(strings.TrimPrefix(txt, "call"))
 			colon := strings.Index(txt, ": ")
 			if colon < 0 {
 				return fmt.Errorf("%s:%d: malformed site clause (need 'call <pattern>: expr')", path, r.line)
